@@ -1,6 +1,7 @@
 """C14 — search requests flow down exactly once; replies go to the asker."""
 from __future__ import annotations
 from .common import *
+from .c13 import child_list_rules
 
 DN = 'DistributedNetwork'
 CARRIERS = {'ServerSearchRequest.Response', 'DistributedSearchRequest.Request', 'DistributedServerSearchRequest.Request'}
@@ -104,6 +105,9 @@ def run(eng: Engine, ck: Check):
                 if call_name(c) in ('queue_messages', 'queue_message', 'send_message') and 'Search' in unparse(c):
                     ck.ob('R-C14-FANOUT', f, c, 'search carriers are never queued on a hand-picked connection', False, unparse(c)[:80],
                           construct=f'{f.qualname} sends a search carrier')
+
+    # closed children leave the list, live ones stay (forwarding reaches exactly the current children)
+    child_list_rules(eng, ck, 'R-C14-CHILDREN')
 
     # ---- R-C14-FIELDS
     for h, carrier in fwd:
